@@ -19,3 +19,24 @@ theories/C10/Proofs.vos theories/C10/Proofs.vok theories/C10/Proofs.required_vos
 theories/C10/Props.vo theories/C10/Props.glob theories/C10/Props.v.beautified theories/C10/Props.required_vo: theories/C10/Props.v theories/Base/Tactics.vo theories/Base/SortedSet.vo theories/C10/Model.vo theories/C10/Proofs.vo
 theories/C10/Props.vio: theories/C10/Props.v theories/Base/Tactics.vio theories/Base/SortedSet.vio theories/C10/Model.vio theories/C10/Proofs.vio
 theories/C10/Props.vos theories/C10/Props.vok theories/C10/Props.required_vos: theories/C10/Props.v theories/Base/Tactics.vos theories/Base/SortedSet.vos theories/C10/Model.vos theories/C10/Proofs.vos
+theories/C11/Examples.vo theories/C11/Examples.glob theories/C11/Examples.v.beautified theories/C11/Examples.required_vo: theories/C11/Examples.v theories/Base/Tactics.vo theories/Lib/Pareto.vo theories/C11/Model.vo
+theories/C11/Examples.vio: theories/C11/Examples.v theories/Base/Tactics.vio theories/Lib/Pareto.vio theories/C11/Model.vio
+theories/C11/Examples.vos theories/C11/Examples.vok theories/C11/Examples.required_vos: theories/C11/Examples.v theories/Base/Tactics.vos theories/Lib/Pareto.vos theories/C11/Model.vos
+theories/C11/Model.vo theories/C11/Model.glob theories/C11/Model.v.beautified theories/C11/Model.required_vo: theories/C11/Model.v theories/Base/Tactics.vo theories/Lib/Pareto.vo
+theories/C11/Model.vio: theories/C11/Model.v theories/Base/Tactics.vio theories/Lib/Pareto.vio
+theories/C11/Model.vos theories/C11/Model.vok theories/C11/Model.required_vos: theories/C11/Model.v theories/Base/Tactics.vos theories/Lib/Pareto.vos
+theories/C11/ProofsLow.vo theories/C11/ProofsLow.glob theories/C11/ProofsLow.v.beautified theories/C11/ProofsLow.required_vo: theories/C11/ProofsLow.v theories/Base/Tactics.vo theories/Base/ListAux.vo theories/Lib/Pareto.vo theories/C11/Model.vo theories/C11/ProofsSfs.vo
+theories/C11/ProofsLow.vio: theories/C11/ProofsLow.v theories/Base/Tactics.vio theories/Base/ListAux.vio theories/Lib/Pareto.vio theories/C11/Model.vio theories/C11/ProofsSfs.vio
+theories/C11/ProofsLow.vos theories/C11/ProofsLow.vok theories/C11/ProofsLow.required_vos: theories/C11/ProofsLow.v theories/Base/Tactics.vos theories/Base/ListAux.vos theories/Lib/Pareto.vos theories/C11/Model.vos theories/C11/ProofsSfs.vos
+theories/C11/ProofsSfs.vo theories/C11/ProofsSfs.glob theories/C11/ProofsSfs.v.beautified theories/C11/ProofsSfs.required_vo: theories/C11/ProofsSfs.v theories/Base/Tactics.vo theories/Base/ListAux.vo theories/Lib/Pareto.vo theories/C11/Model.vo
+theories/C11/ProofsSfs.vio: theories/C11/ProofsSfs.v theories/Base/Tactics.vio theories/Base/ListAux.vio theories/Lib/Pareto.vio theories/C11/Model.vio
+theories/C11/ProofsSfs.vos theories/C11/ProofsSfs.vok theories/C11/ProofsSfs.required_vos: theories/C11/ProofsSfs.v theories/Base/Tactics.vos theories/Base/ListAux.vos theories/Lib/Pareto.vos theories/C11/Model.vos
+theories/C11/ProofsTop.vo theories/C11/ProofsTop.glob theories/C11/ProofsTop.v.beautified theories/C11/ProofsTop.required_vo: theories/C11/ProofsTop.v theories/Base/Tactics.vo theories/Base/ListAux.vo theories/Lib/Pareto.vo theories/C11/Model.vo theories/C11/ProofsSfs.vo theories/C11/ProofsLow.vo
+theories/C11/ProofsTop.vio: theories/C11/ProofsTop.v theories/Base/Tactics.vio theories/Base/ListAux.vio theories/Lib/Pareto.vio theories/C11/Model.vio theories/C11/ProofsSfs.vio theories/C11/ProofsLow.vio
+theories/C11/ProofsTop.vos theories/C11/ProofsTop.vok theories/C11/ProofsTop.required_vos: theories/C11/ProofsTop.v theories/Base/Tactics.vos theories/Base/ListAux.vos theories/Lib/Pareto.vos theories/C11/Model.vos theories/C11/ProofsSfs.vos theories/C11/ProofsLow.vos
+theories/C11/Props.vo theories/C11/Props.glob theories/C11/Props.v.beautified theories/C11/Props.required_vo: theories/C11/Props.v theories/Base/Tactics.vo theories/Lib/Pareto.vo theories/C11/Model.vo theories/C11/ProofsSfs.vo theories/C11/ProofsLow.vo theories/C11/ProofsTop.vo
+theories/C11/Props.vio: theories/C11/Props.v theories/Base/Tactics.vio theories/Lib/Pareto.vio theories/C11/Model.vio theories/C11/ProofsSfs.vio theories/C11/ProofsLow.vio theories/C11/ProofsTop.vio
+theories/C11/Props.vos theories/C11/Props.vok theories/C11/Props.required_vos: theories/C11/Props.v theories/Base/Tactics.vos theories/Lib/Pareto.vos theories/C11/Model.vos theories/C11/ProofsSfs.vos theories/C11/ProofsLow.vos theories/C11/ProofsTop.vos
+theories/Lib/Pareto.vo theories/Lib/Pareto.glob theories/Lib/Pareto.v.beautified theories/Lib/Pareto.required_vo: theories/Lib/Pareto.v theories/Base/Tactics.vo
+theories/Lib/Pareto.vio: theories/Lib/Pareto.v theories/Base/Tactics.vio
+theories/Lib/Pareto.vos theories/Lib/Pareto.vok theories/Lib/Pareto.required_vos: theories/Lib/Pareto.v theories/Base/Tactics.vos
